@@ -14,6 +14,7 @@ from types import SimpleNamespace
 from lib import batch, tlc
 from lib.core import Ctx
 from lib import repo  # noqa: F401
+from props import seeding
 
 
 _GENERATORS = {}
@@ -186,4 +187,6 @@ def run(ctx: Ctx):
     if "err" in mc_res:
         raise mc_res["err"]
     ctx.add_model("MC_Vectorise", mc_res["r"])
+    # the stage that uses all of this: getInitialAlignment against Seeding.tla (seeds are bin centres, the kept ones the highest)
+    seeding.run_part(ctx, "C16", model=False)
     ctx.exhaustive = True
